@@ -1,3 +1,4 @@
+import subprocess
 from typing import Optional
 from conductor.utils.output_handler import OutputHandler
 
@@ -16,6 +17,10 @@ class OperationExecutionHandle:
         self.stderr: Optional[OutputHandler] = None
         self.returncode: Optional[int] = None
         self.slot: Optional[int] = None
+        # Keeps the `Popen` instance alive while the process is running. If it
+        # were garbage collected earlier, `Popen.__del__()` would poll (and
+        # possibly reap) the process, racing with our SIGCHLD handler.
+        self.process: Optional[subprocess.Popen] = None
 
     @classmethod
     def from_async_process(cls, pid: int):
